@@ -27,6 +27,12 @@ sets because the library iterates over sets of strings, whose order changes with
                   3-4 workers, wave schedule (all workers ask, then the trials run to their rung level one by one)
   random          random interleavings of suggest / report / failure / self-completion, random searcher
   gp              the same with searcher="bayesopt" x searcher_data x register_pending_myopic x brackets 1..3
+  per_bracket     promotion / rush / cost-aware with rung_system_per_bracket=True, 2-3 brackets and rung systems whose
+                  level ratios (hence promotion quantiles) differ from rung to rung
+  stopping        stopping type (C03): stop / continue decisions against the ledger (quantile rule at the trial's own
+                  rung levels incl. its own metric, fewer than two entries continue, ties either way, no decision off
+                  the own rung levels, stopped at or beyond max_t), shared and per-bracket rung systems, brackets 1..3,
+                  reports that jump over 1-3 resource values (also over max_t) or repeat the last level
   dyhpo           searcher="dyhpo", type="dyhpo" (linear rung levels 1..5 / 2,4,6, initial-random phase, so DyHPO always
                   proposes a new trial and trials are resumed by its successive-halving branch only): both modes x all
                   data policies; the pause / told-to-run-to / resumed-trial-is-paused clauses and all C14 clauses
@@ -86,13 +92,17 @@ P_RUN = "pending-only-for-running-trials"
 P_OBS = "pending-only-at-levels-not-yet-observed-within-current-job"
 P_SET = "pending-set-is-exactly-the-next-levels-of-running-trials-per-policy"
 P_END = "no-pending-left-after-trial-pauses-stops-completes-or-fails"
+S_DEC = "stopping-decision-follows-the-quantile-rule-at-own-rung-levels"
+S_OFF = "stopping-no-decision-off-own-rung-levels"
+S_MAX = "stopping-trial-stopped-at-or-beyond-max-resource"
 PB_EXC = "pasha-with-several-brackets-raises-no-exception"
 PB_CAP = "pasha-with-several-brackets-new-trial-first-milestone-within-resource-cap"
 
 CLAUSES = [
     C_EXC, C_RL, C_SUG, C_BRK, C_PAUSE, C_MAXT, C_TOLD_NEW, C_TOLD_RES, C_RES_PAUSED, C_RES_Q, C_RES_COST,
     C_RES_RUSH, C_RES_BEST, C_RES_HIGH, C_NEW, C_Q0, C_CAP, C_PCAP, C_TWIN, C_TOTC,
-    D_ONE, D_VAL, D_LEV, D_OFFRUNG, D_LOWRUNG, P_RUN, P_OBS, P_SET, P_END, PB_EXC, PB_CAP,
+    D_ONE, D_VAL, D_LEV, D_OFFRUNG, D_LOWRUNG, P_RUN, P_OBS, P_SET, P_END, S_DEC, S_OFF, S_MAX,
+    PB_EXC, PB_CAP,
 ]
 # clauses whose violation does not end the scenario (the reference ledger stays valid)
 NON_FATAL = {D_OFFRUNG, D_LOWRUNG}
@@ -369,7 +379,7 @@ class Sim:
         return self.RL[i + 1] if i + 1 < len(self.RL) else self.max_t
 
     def value(self, tid, l):
-        return float(self.table[tid % NT, l - 1])
+        return float(self.table[tid % NT, min(l, self.max_t) - 1])
 
     def cost_sum(self, tid, a, b):
         """cost of epochs a..b (inclusive)"""
@@ -619,17 +629,45 @@ class Sim:
                 if self.twin is not None:
                     self.call(self.twin.on_trial_remove, t["trial2"])
         else:
-            if l >= self.max_t:
-                rec.check(C_MAXT, dec != "CONTINUE", self.ctx, trial=tid, level=l, decision=dec)
+            self.check_stopping_decision(t, tid, l, v, dec)
             if dec != "CONTINUE":
                 t["state"] = "stopped"
                 ended = tid
                 self.call(self.sched.on_trial_remove, t["trial"])
-            elif l == t["m"]:
+            elif l >= t["m"]:
                 ms = self.RL[t["bracket"]:] + [self.max_t]
-                t["m"] = min(x for x in ms if x > l)
+                t["m"] = min([x for x in ms if x > l] or [self.max_t])
         self.after_event(ended, reported=(tid, l, prev_last))
         return dec
+
+    def check_stopping_decision(self, t, tid, l, v, dec):
+        """C03: stop / continue decisions of the stopping type against the ledger"""
+        rec = self.rec
+        if l >= self.max_t:
+            rec.check(S_MAX, dec == "STOP", self.ctx, trial=tid, level=l, max_t=self.max_t, decision=dec)
+            return
+        own = self.RL[t["bracket"]:]
+        entered = t.setdefault("entered", set())
+        if l in own and l not in entered:
+            entered.add(l)
+            entries = self.systems[t["sysidx"]][l]
+            e = {"tid": tid, "metric": v, "cost": None, "promoted": False}
+            entries.append(e)
+            if len(entries) < 2:
+                st, allowed = {"status": "fewer-than-two-entries", "n": len(entries)}, ("CONTINUE",)
+            else:
+                st = self.entry_status(l, entries, e)
+                allowed = {"yes": ("CONTINUE",), "no": ("STOP",), "tie": ("CONTINUE", "STOP")}[st["status"]]
+                if st["status"] == "tie":
+                    rec.cover["tie"] += 1
+            rec.check(S_DEC, dec in allowed, self.ctx, trial=tid, bracket=t["bracket"], level=l, metric=v,
+                      decision=dec, allowed=allowed, status=st, rung=self._dump(t["sysidx"], l),
+                      per_bracket=self.per_bracket)
+        else:
+            # not one of the trial's own rung levels (below the bracket offset, between levels, a level that was
+            # jumped over, or a level reported for the second time): no decision is taken
+            rec.check(S_OFF, dec == "CONTINUE", self.ctx, trial=tid, bracket=t["bracket"], level=l,
+                      own_rung_levels=own, entered=sorted(entered), decision=dec)
 
     def fail(self, tid):
         t = self.trials[tid]
@@ -761,6 +799,8 @@ class Sim:
             return
         rs = np.random.RandomState(spec["ev_seed"])
         W, pf, pc = spec["workers"], spec.get("p_fail", 0.0), spec.get("p_complete", 0.0)
+        p_skip, p_dup = spec.get("p_skip", 0.0), spec.get("p_dup", 0.0)
+        assert p_skip == 0.0 or (self.type == "stopping" and not self.bayes)
         for _ in range(spec["events"]):
             if self.next_id >= NT - 1:
                 break
@@ -779,7 +819,14 @@ class Sim:
             if k < free:
                 self.suggest()
             else:
-                self.report(run[k - free])
+                tid = run[k - free]
+                if p_skip > 0.0:
+                    t, w = self.trials[tid], rs.rand()
+                    if w < p_skip:
+                        t["next"] += int(rs.randint(1, 4))  # the report jumps over 1-3 resource values
+                    elif w < p_skip + p_dup and t["next"] > 1:
+                        t["next"] -= 1  # the last level is reported once more
+                self.report(tid)
 
 
 # --------------------------------------------------------------------------------------------------------------
@@ -795,6 +842,9 @@ RUNGS = {
     "list": {"rung_levels": [1, 2, 5, 9], "max_t": 9},  # 1,2,5 (trailing max_t stripped)
     "g2e2.5m12": {"grace_period": 2, "reduction_factor": 2.5, "max_t": 12},  # 2,5
     "g3e2m24": {"grace_period": 3, "reduction_factor": 2, "max_t": 24},  # 3,6,12
+    "list2": {"rung_levels": [1, 2, 9], "max_t": 10},  # q = 1/2, 2/9, 9/10
+    "g1i3m8": {"grace_period": 1, "rung_increment": 3, "max_t": 8},  # 1,4,7: q = 1/4, 4/7, 7/8
+    "g1e3m20": {"grace_period": 1, "reduction_factor": 3, "max_t": 20},  # 1,3,9: q = 1/3, 1/3, 9/20
     "dy1m6": {"grace_period": 1, "rung_increment": 1, "max_t": 6},  # 1,2,3,4,5 (DyHPO: linear, grace == increment)
     "dy2m8": {"grace_period": 2, "rung_increment": 2, "max_t": 8},  # 2,4,6
 }
@@ -860,7 +910,7 @@ def build_catalogue(tier, seed):
                          p_fail=0.03, p_complete=0.03))
 
     # F3: GP multi-fidelity searcher (C14), all data policies -------------------------------------------------
-    pols = [("rungs", False), ("all", False), ("all", True), ("rungs_and_last", False), ("rungs_and_last", True)]
+    pols = [("rungs", False), ("rungs", True), ("all", False), ("all", True), ("rungs_and_last", False), ("rungs_and_last", True)]
     reps = 7 if thorough else 2
     for rep in range(reps):
         for ty in ("promotion", "stopping"):
@@ -886,6 +936,28 @@ def build_catalogue(tier, seed):
                                  workers=int(rs.randint(2, 5)), events=int(rs.randint(70, 120)), ev_seed=s31(),
                                  sched_seed=s31(), table={"kind": pick(["generic", "signed"]), "seed": s31()},
                                  rush_k=int(rs.randint(0, 3)), p_fail=0.05, p_complete=0.08))
+
+    # F2b: per-bracket rung systems with non-constant level ratios, promotion types --------------------------------
+    NONCONST = ["g1i2m7", "list", "list2", "g1i3m8", "g1e3m20", "g2e2.5m12"]
+    for i in range(240 if thorough else 60):
+        ty = ("promotion", "rush_promotion", "cost_promotion")[i % 3]
+        cat.append(_base(family="per_bracket", type=ty, mode=("min", "max")[(i // 3) % 2], rung_name=NONCONST[i % 6],
+                         brackets=2 + (i // 6) % 2, per_bracket=True, mra=bool(rs.rand() < 0.5),
+                         ckpt=bool(rs.rand() < 0.6), workers=int(rs.randint(2, 5)), events=int(rs.randint(120, 200)),
+                         ev_seed=s31(), sched_seed=s31(), table={"kind": pick(["generic", "signed"]), "seed": s31()},
+                         cost_kind=pick(["generic", "skew"]), rush_k=int(rs.randint(0, 3)), p_fail=0.02,
+                         p_complete=0.02))
+
+    # F2c: stopping type (C03 decision clauses), shared and per-bracket rung systems, reports that skip levels -------
+    allr = [r for r in RUNGS if not r.startswith("dy")]
+    for i in range(700 if thorough else 170):
+        b = 1 + i % 3
+        cat.append(_base(family="stopping", type="stopping", mode=("min", "max")[(i // 3) % 2],
+                         rung_name=NONCONST[(i // 6) % 6] if i % 2 else allr[(i // 2) % len(allr)], brackets=b,
+                         per_bracket=bool(b > 1 and (i // 6) % 2 == 0), mra=bool(rs.rand() < 0.5), ckpt=True,
+                         workers=int(rs.randint(1, 5)), events=int(rs.randint(80, 160)), ev_seed=s31(),
+                         sched_seed=s31(), table={"kind": kinds[i % len(kinds)], "seed": s31()},
+                         p_fail=0.02, p_complete=0.02, p_skip=(0.0, 0.15, 0.3)[i % 3], p_dup=0.03))
 
     # F3b: DyHPO (searcher="dyhpo", type="dyhpo"): pause / told-to-run-to clauses and all C14 clauses --------------
     for rep_ in range(3 if thorough else 1):
@@ -964,7 +1036,7 @@ def monitor_hyperband(tier="quick", seed=0):
             samples.append({k: s[k] for k in ("family", "type", "mode", "rung_name", "brackets", "mra", "ckpt",
                                               "searcher", "searcher_data", "workers", "schedule", "table")})
     summary = ("tier=%s seed=%d: %d scenarios %s on the real HyperbandScheduler; types promotion/pasha/rush_promotion/"
-               "cost_promotion (+stopping and dyhpo for the data clauses); 11 rung systems (2-3 rung levels, max_t<=27); "
+               "cost_promotion + stopping decisions (C03) + dyhpo for the data clauses; 14 rung systems (2-3 rung levels, max_t<=27); "
                "brackets 1..3 (shared and per-bracket rung systems; PASHA: 1); modes min/max; with/without "
                "max_resource_attr and checkpointing; 1..8 workers; <=130 events (enumerated 3-/4-tuples over %s in "
                "3-4 waves; random interleavings incl. failures / self-completion); searcher random, bayesopt and dyhpo "
